@@ -146,6 +146,7 @@ PROPS["C03"] = {
     "assumptions": ["application follows the documented call pattern", "transport chunks are never empty"],
 }
 PROPS["C06"] = {
+    "aggregate": True,
     "technique": "Union of the panic / overflow / index / unwrap / assert! obligations Verus generates for every function under contract in all units, plus Kani totality harnesses on the leaf decoders; 'no Pending after the peer is done' as postconditions",
     "text": "Every extracted function is verified with Verus' default obligations on: arithmetic overflow, slice/VecDeque indexing, unwrap/expect, assert!/unreachable! are proof obligations, so a new reachable panic in any function under contract fails its unit and is attributed here. The leaf decoders (VarInt, prefix_int, Huffman step, HeaderBlockField, Datagram::decode, SessionId::decode) are proved panic-free over full symbolic inputs by Kani. Completion: every poll function under contract ensures that it does not answer Pending once the transport has signalled the end (old eos ⇒ not Pending) and that every Pending answer follows a Pending answer of the transport in the same call (a waker is registered). PARTIAL: that the executor re-polls (fairness) and functions not under contract are outside the claim.",
     "note": "Functions not under contract: tests, examples, h3-webtransport forwarding impls, h3-datagram handler plumbing, tracing, Debug/Display, builders' async setup beyond what C13's harnesses cover. Loops that end on Pending are proved for partial correctness. Preconditions from the documented call pattern (C03) exclude application misuse.",
